@@ -79,7 +79,20 @@ func runC16(c *Ctx) {
 	ack := clause("acknowledge requested", T(`^%options\["acknowledge"\]\.\(bool\),ok#0$`), T(`^phi\(.*acknowledge.*\)$`))
 	c.Guard(r2, pub, "waiter registered", `^call:client\.\(\*Client\)\.expectReply\(`, 1, ack)
 	ruleWaiterRemoved(c, r2)
-	c.R.Floor(r2, 40)
+	// request ids come from the synchronised generator, whose Next returns the very value drawn under its lock
+	sg := "wamp.(*SyncIDGen).Next"
+	c.Has(r2, sg, "id drawn under the lock", `^call:\(\*sync\.Mutex\)\.Lock\(%g\.&lock\)$`, 1)
+	c.Before(r2, sg, "lock taken before the id is drawn", `^call:\(\*sync\.Mutex\)\.Lock\(%g\.&lock\)$`, `^call:wamp\.\(\*IDGen\)\.Next\(%g\.&IDGen\)$`)
+	c.Has(r2, sg, "the value returned is the one drawn under the lock", `^return:call:wamp\.\(\*IDGen\)\.Next\(%g\.&IDGen\)$`, 1)
+	if fn := c.P.Func(sg); fn != nil && len(matches(fn, `^call:\(\*sync\.Mutex\)\.Unlock\(`)) > 0 {
+		// explicit unlock: it must come after the draw, and nothing of the generator is read after it
+		c.Reach(r2, sg, "nothing of the generator is read after the lock is released", ReachSpec{From: `^call:\(\*sync\.Mutex\)\.Unlock\(`, Target: `^val:%g\.|^val:\*%g|^call:wamp\.\(\*IDGen\)\.`, Want: false})
+		c.Reach(r2, sg, "the lock is not released before the id is drawn", ReachSpec{From: `^call:\(\*sync\.Mutex\)\.Lock\(%g\.&lock\)$`, Stop: `^call:wamp\.\(\*IDGen\)\.Next\(%g\.&IDGen\)$`, Target: `^call:\(\*sync\.Mutex\)\.Unlock\(`, Want: false})
+	} else {
+		c.R.OK(r2, sg, "the lock is held until Next returns (deferred unlock)", "-", "")
+	}
+	c.Has(r2, sg, "lock released", `^(defer|call):\(\*sync\.Mutex\)\.Unlock\(%g\.&lock\)$`, 1)
+	c.R.Floor(r2, 44)
 
 	const r3 = "C16.R3 progress handler finished before Call returns"
 	for _, api := range []string{"Call", "CallProgressive"} {
@@ -137,7 +150,8 @@ func runC16(c *Ctx) {
 	c.Reach(r5, hi, "kill switch recorded for every new invocation before its goroutine starts", ReachSpec{Stop: `^mapupdate:%c\.invHandlerKill\[%msg\.Request\]=local:cancel$`, Target: goH, Want: false})
 	hint := cl + "runHandleInterrupt"
 	c.Has(r5, hint, "INTERRUPT cancels the context recorded for that request", `^call:dyn:%c\.invHandlerKill\[%msg\.Request\],ok#0\(\)$`, 1)
-	c.R.Floor(r5, 16)
+	ruleClientNumericTolerance(c, r5)
+	c.R.Floor(r5, 18)
 }
 
 func pubNoAck(api string) []ir.Clause {
